@@ -46,7 +46,8 @@ ListenerOut(p0) ==
                  ELSE OutWalk(p, off + hl, off + hl + ml)
 
 \* on packets the tunnel accepts, the two descriptions agree
-AgreesWithTunnel(p) == (Decode(p) # BadPacket /\ Len(p) <= MaxDgram /\ \A i \in 1..Len(Decode(p)) :
+Malformed(fs) == \E i \in 1..Len(fs) : fs[i].eff = 2             \* (Walk appends the BadPacket marker where it stops)
+AgreesWithTunnel(p) == (~Malformed(Decode(p)) /\ Len(p) <= MaxDgram /\ \A i \in 1..Len(Decode(p)) :
                            (Len(Decode(p)[i].data) <= (IF Fd = 1 THEN 64 ELSE 8) /\ (Decode(p)[i].eff = 1 \/ ~IdAbove11(Decode(p)[i].id))))
                        => ListenerOut(p).fs = (IF Fd = 1 THEN Decode(p) ELSE [i \in 1..Len(Decode(p)) |-> [Decode(p)[i] EXCEPT !.fdf = 0, !.brs = 0, !.esi = 0]])
 =============================================================================
